@@ -982,6 +982,46 @@ def check_dtype_history(np, cfgd, utts):
     return bad, nt
 
 
+def retuned_floor_oracle(ctx, np, nconf):
+    """The log is floored at config.LOG_FLOOR_VALUE - the package setting, which may be re-assigned at run time: a
+    computer built BEFORE the setting was changed and one built after it must agree (both use the value in force), on
+    signals whose integrated coefficients fall on both sides of the old and the new floor."""
+    C.ensure_impl_path()
+    from pydrobert.speech import config
+
+    rng = ctx.rng
+    nprng = np.random.RandomState(ctx.seed + 404)
+    shipped = config.LOG_FLOOR_VALUE
+    try:
+        for rep in range(nconf):
+            config.LOG_FLOOR_VALUE = shipped
+            built_before, cfgd = make_real_computer(rng)
+            if not cfgd["log"]:
+                cfgd = dict(cfgd, log=True)
+                built_before = build_real_computer(cfgd)
+            if not comp_pre(built_before, cfgd):
+                continue
+            floor = rng.choice([1e-2, 1e-12, 1.0, 1e-8, 3e-4])
+            config.LOG_FLOOR_VALUE = floor
+            built_after = build_real_computer(cfgd)
+            n = rng.randint(2, 8) * built_before.frame_shift + rng.randint(0, 3)
+            x = np.concatenate([nprng.randn(max(1, n // 4)) * a for a in rng.sample([1.0, 1e-2, 1e-4, 1e-7, 0.0], 4)])
+            a = built_before.compute_full(x)
+            b = built_after.compute_full(x)
+            ctx.count("retuned-floor")
+            ctx.case(dict(kind="retuned-floor", cfg=cfgd, floor=floor, n=len(x)), nontrivial=a.shape[0] > 0)
+            if a.shape != b.shape or not np.array_equal(a, b):
+                k = int(np.argmax(np.abs(a - b))) if a.shape == b.shape and a.size else 0
+                ctx.fail("short-integration computer built before config.LOG_FLOOR_VALUE was re-assigned to %g does not use the floor in force "
+                         "(it differs from a computer built afterwards)" % floor,
+                         dict(cfg=cfgd, LOG_FLOOR_VALUE=floor, shipped=shipped, x=[float(v) for v in x],
+                              built_before=[float(v) for v in a.reshape(-1)[:40]], built_after=[float(v) for v in b.reshape(-1)[:40]],
+                              first_differing_flat_index=k, log_of_floor=float(np.log(floor))), kind="impl")
+                return
+    finally:
+        config.LOG_FLOOR_VALUE = shipped
+
+
 def dtype_history_oracle(ctx, np, nconf):
     """'Input of any floating dtype is accepted and the result has that dtype' holds for every
     utterance a computer processes, not only its first: sequences of utterances of different
@@ -1080,6 +1120,7 @@ def run(ctx):
     chunk_oracle(ctx, np, ctx.scale(100, 800))
     dtype_oracle(ctx, np)
     dtype_history_oracle(ctx, np, ctx.scale(150, 1000))
+    retuned_floor_oracle(ctx, np, ctx.scale(40, 400))
     ctx.cov["rule"] = (
         "integer-coded cases: one computer built by the real constructor on a stub bank (integer impulse "
         "responses, real or complex) and stub window, 1-3 utterances (compute_full / random chunk stream + "
